@@ -223,7 +223,9 @@ func VerifH_prefix_step() {
 	req, pds := w.request()
 	resp := &dhcpv6.Message{MessageType: dhcpv6.MessageTypeReply}
 
+	vnd.Share("prefix", w.h)
 	r, stop := w.h.Handle(req, resp)
+	vnd.Unshare()
 
 	vnd.Assert(vnd.HeldLocks() == 0, "C16 prefix plugin lock released")
 	vnd.Assert(r == dhcpv6.DHCPv6(resp) && !stop, "C08 request with a client id is answered and passed on")
